@@ -110,6 +110,9 @@ std::string FilterText(const std::string& rpn)
 			else if (k == 'm') st.push_back("match(" + Quote(HexDec(p.at(1))) + ", " + sc + ".name)");
 			else if (k == 'M') st.push_back("match(" + HexDec(p.at(1)) + ", " + sc + ".name)");
 			else if (k == 'l') st.push_back("(len(" + sc + ".name) == " + p.at(1) + ")");
+			// demonstration only (notes/C18.md, observation get_object; never generated, not in the model):
+			// Gh:<hextype>:<hexname>:<hexkey>:<hexval>  =  get_object("<type>", "<name>").vars.<key> == "<val>"
+			else if (k == 'G') st.push_back("(get_object(" + Quote(HexDec(p.at(1))) + ", " + Quote(HexDec(p.at(2))) + ").vars." + HexDec(p.at(3)) + " == " + Quote(HexDec(p.at(4))) + ")");
 			else if (k == 'r') st.push_back("regex(" + Quote("^" + HexDec(p.at(1)) + "$") + ", " + sc + ".name)");
 			else throw std::runtime_error("bad atom " + tk);
 		}
